@@ -351,6 +351,41 @@ func runC03(c *Ctx) {
 			c.Fail(key, rGrow, "the non-blocking select does not watch stopch", c.at(nb.At))
 			continue
 		}
+		// growth depends on nothing but spare capacity: compared with the blocking offer (which every
+		// iteration reaches), the only additional branch condition is the counter-below-maximum test
+		{
+			var blocking *tickOffer
+			for oi := range a.Offers {
+				if a.Offers[oi].Blocking {
+					blocking = &a.Offers[oi]
+				}
+			}
+			common := map[ssa.Value]bool{}
+			if blocking != nil {
+				for _, f := range factsAt(blocking.At.Block()) {
+					common[f.Cond] = true
+				}
+			}
+			extra := ""
+			for _, f := range factsAt(nb.At.Block()) {
+				if common[f.Cond] {
+					continue
+				}
+				if bo, isBo := f.Cond.(*ssa.BinOp); isBo {
+					if (bo.Op == token.LSS || bo.Op == token.GTR || bo.Op == token.GEQ || bo.Op == token.LEQ) && (attackerFieldLoad(bo.X, "maxWorkers") || attackerFieldLoad(bo.Y, "maxWorkers")) {
+						continue
+					}
+				}
+				if _, isPhi := f.Cond.(*ssa.Phi); isPhi {
+					continue // the && itself; its operands are judged individually
+				}
+				extra = describeVal(f.Cond)
+			}
+			if extra != "" {
+				c.Fail(key, rGrow, "growing the pool is additionally conditional on "+extra+": with spare capacity and all workers busy a due tick can still wait for a worker to finish", c.at(nb.At))
+				continue
+			}
+		}
 		// the spawn is reachable only when neither the send nor the stop case fired:
 		// from the sent / stopped outcomes the spawn must be unreachable within this iteration
 		inDefault := true
